@@ -208,6 +208,10 @@ func runRingSweep(c *core.Ctx, cp, off int) {
 
 func runC05(c *core.Ctx) {
 	i := c.Index
+	if h := i - len(ringPlan); h >= 0 && h < 5 {
+		runHugeLinear(c, 3+h, hugeLinearN(c.Tier)) // stacks, queues and a ring with 300 000 elements
+		return
+	}
 	if i < len(ringPlan) {
 		if ringPlan[i][0] <= 17 || c.Tier == "thorough" || i%7 == 0 {
 			runRingSweep(c, ringPlan[i][0], ringPlan[i][1])
